@@ -1,4 +1,5 @@
 import Goirc.Spec.Tracker
+import Goirc.Proofs.TrackerSim
 /-!
 # C12 — The state tracker behaves as a relational model of nicks and channels
 
@@ -15,6 +16,11 @@ import Goirc.Spec.Tracker
 over all operation sequences covers "every query result ... after any history".
 Snapshots carry Go maps; they are compared as finite maps (`List.Perm` of the entry lists).
 -/
+/-- pointwise relatedness of two lists (the standard definition; core Lean does not ship it) -/
+inductive List.Forall₂ {α β : Type _} (R : α → β → Prop) : List α → List β → Prop
+  | nil : List.Forall₂ R [] []
+  | cons {a b l₁ l₂} : R a b → List.Forall₂ R l₁ l₂ → List.Forall₂ R (a :: l₁) (b :: l₂)
+
 namespace Props.C12
 open Go.Tracker
 
@@ -43,5 +49,26 @@ def runM : St → List Op → List Ret
 def runS : Spec.Tracker.S → List Op → List Ret
   | _, [] => []
   | s, o :: os => (Spec.Tracker.step s o).2 :: runS (Spec.Tracker.step s o).1 os
+
+theorem retEq_of_retSim {a b : Ret} (h : Spec.Tracker.RetSim a b) : RetEq a b := by
+  cases a <;> cases b <;>
+    first
+    | exact h
+    | (rename_i x y; cases x <;> cases y <;> exact h)
+
+theorem refines_of_R (ops : List Op) : ∀ (st : St) (S : Spec.Tracker.S), Spec.Tracker.R st S →
+    List.Forall₂ RetEq (runM st ops) (runS S ops) := by
+  induction ops with
+  | nil => intro st S _; exact .nil
+  | cons o os ih =>
+    intro st S r
+    have h := Spec.Tracker.step_sim r o
+    exact .cons (retEq_of_retSim h.2) (ih _ _ h.1)
+
+/-- **C12.** For every operation sequence, every return value of the heap-faithful tracker model
+equals that of the relational spec (snapshot maps compared as finite maps). -/
+theorem tracker_refines (me : Bytes) (ops : List Op) :
+    List.Forall₂ RetEq (runM (Go.Tracker.new me) ops) (runS (Spec.Tracker.new me) ops) :=
+  refines_of_R ops _ _ (Spec.Tracker.R_new me)
 
 end Props.C12
